@@ -421,9 +421,9 @@ def yenSpur (cf : Config α) (sim : List Nat → List Nat → Except ErrKind Boo
       let cut := st.accepted.filterMap (fun p =>
         if sameIds root (p.take spurLen) then p[spurIdx + 1]?.map (·.edge) else none)
       let cfCut : Config α := { cf with frontier := FrontierM.edgeCut cut :: cf.frontier }
-      let (sched, scheds') := match st.scheds with
-        | [] => (([] : List Nat), ([] : List (List Nat)))
-        | s :: r => (s, r)
+      -- the next recorded schedule (a search from the target to itself ignores it)
+      let sched := st.scheds.headD []
+      let scheds' := st.scheds.tail
       match runVertexOriented cfCut.inst spurVertex (some target) sched with
       | .error k => .error k
       | .ok res =>
@@ -481,9 +481,8 @@ def yenWhile (cf : Config α) (sim : List Nat → List Nat → Except ErrKind Bo
 def yens (c : Config α) (sim : List Nat → List Nat → Except ErrKind Bool) (term : KspTerm)
     (source target k : Nat) (scheds : List (List Nat)) : KspOutcome α :=
   let cf := c.fwd
-  let (sched0, rest) := match scheds with
-    | [] => (([] : List Nat), ([] : List (List Nat)))
-    | s :: r => (s, r)
+  let sched0 := scheds.headD []
+  let rest := scheds.tail
   match runVertexOriented cf.inst source (some target) sched0 with
   | .error e => .err e
   | .ok res =>
